@@ -186,6 +186,8 @@ func main() {
 	paths := []struct{ p, script, pathInfo string }{
 		{"/i.php", "/i.php", ""}, {"/i.php/extra/info", "/i.php", "/extra/info"}, {"/dir/", "/dir/index.php", ""}, {"/sub/j.php?x=1&y=2", "/sub/j.php", ""}, {"/U.PHP", "/U.PHP", ""},
 		// the split string occurs twice, first in another letter case: the script ends at the first occurrence
+		// an absolute-form request target (what a client configured with a proxy sends): the variables are those of its path and query
+		{"http://a.test:8080/i.php/extra/info?abs=1", "/i.php", "/extra/info"},
 		{"/U.PHP/pic.php", "/U.PHP", "/pic.php"}, {"/U.PHP/x/view.php/z", "/U.PHP", "/x/view.php/z"}, {"/i.php/next.PHP", "/i.php", "/next.PHP"},
 	}
 	for hi, hs := range hdrSets {
@@ -196,7 +198,7 @@ func main() {
 			for pi, pp := range paths {
 				// the body announced by Content-Length, or sent without a length in chunks of 60 000 bytes (framing 1; few header sets)
 				for framing := 0; framing < 2; framing++ {
-					if (hi > 30 || bl > 1) && pi > 1 {
+					if (hi > 30 || bl > 1) && pi > 1 && !(strings.HasPrefix(pp.p, "http://") && hi == 0 && bl <= 65500) {
 						continue
 					}
 					if framing == 1 && (hi > 3 || pi > 1) {
@@ -265,6 +267,16 @@ func main() {
 					}
 					// (net/http/fcgi consumes SCRIPT_NAME and PATH_INFO; their values are visible through
 					// DOCUMENT_URI, SCRIPT_FILENAME and PATH_TRANSLATED)
+					// REQUEST_URI is the request target in origin form (path and query as sent)
+					wantURI := pp.p
+					if i := strings.Index(wantURI, "://"); i >= 0 {
+						wantURI = wantURI[i+3:]
+						wantURI = wantURI[strings.Index(wantURI, "/"):]
+					}
+					// (net/http/fcgi builds the child's request URL from REQUEST_URI and consumes the variable)
+					if got.uri != wantURI {
+						diffs = append(diffs, fmt.Sprintf("REQUEST_URI %q want %q", got.uri, wantURI))
+					}
 					if got.env["DOCUMENT_URI"] != pp.script {
 						diffs = append(diffs, fmt.Sprintf("DOCUMENT_URI %q want %q", got.env["DOCUMENT_URI"], pp.script))
 					}
@@ -276,7 +288,7 @@ func main() {
 						diffs = append(diffs, fmt.Sprintf("PATH_TRANSLATED %q want %q", got.env["PATH_TRANSLATED"], wantPT))
 					}
 					// (the placeholders are expanded anew for every request: the path differs between requests)
-					if got.env["FOO"] != "bar" || got.env["DYN"] != "a.test:8080-POST-"+strings.SplitN(pp.p, "?", 2)[0] {
+					if got.env["FOO"] != "bar" || got.env["DYN"] != "a.test:8080-POST-"+strings.SplitN(wantURI, "?", 2)[0] {
 						diffs = append(diffs, fmt.Sprintf("configured env FOO=%q DYN=%q", got.env["FOO"], got.env["DYN"]))
 					}
 					if got.env["SCRIPT_FILENAME"] != filepath.Join(backendRoot, pp.script) || got.env["DOCUMENT_ROOT"] != backendRoot {
